@@ -13,11 +13,11 @@ loader (coq/Dyndep/DyndepDefs.v, extracted to `dyndep_run`) and the real code
       For the valid-by-construction files it also checks the manifest-level meaning:
         (a) model  inline_dyndep g stmts          == REAL ManifestParser on the inlined manifest
         (b) real   load result                    == REAL ManifestParser on the inlined manifest
-            whenever the hypotheses of theorem C11_load_is_inline hold (bound edges have a scope of
-            their own when the file sets restat; the dyndep file is listed once among the inputs of
-            a bound edge); differences are only allowed in these two quirk situations (counted in
-            stats['quirk_*']).  Together with the literal load comparison this also gives
-            model load == model inline_dyndep on those cases.
+            whenever the hypothesis of theorem C11_load_is_inline holds (the dyndep file is listed
+            once among the inputs of a bound edge); differences are only allowed in that quirk
+            situation (stats['quirk_dyndep_listed_twice']).  Together with the literal load
+            comparison this also gives model load == model inline_dyndep on those cases.
+      A CRASH of the implementation is a mismatch (every scenario runs in a forked child).
       mismatches: list of dicts (tag, what, impl, model, manifest, dyndep, content)
       stats: counters; samples: {result class: (tag, manifest, content)} one example each.
   python3 tools/dyndepmodel.py [seed] [n]     run check and print a summary (exit 1 on mismatch)
@@ -267,9 +267,9 @@ def gen_stmts(rnd, g, dd, used):
         imp_outs = [gen_name(rnd, used) for _ in range(rnd.choice([0, 0, 1, 1, 2]))]
         imp_ins = []
         for _ in range(rnd.choice([0, 1, 1, 2, 3])):
-            # (the dyndep file itself only rarely: that is the undefined-behaviour case ub_self_input)
-            cand = allnodes if rnd.random() < 0.03 else [x for x in allnodes if x != dd]
-            imp_ins.append(rnd.choice(cand) if cand and rnd.random() < 0.5 else gen_name(rnd, used))
+            # (the dyndep file itself included: UpdateEdge then appends to the out edges of the node
+            #  whose out edges LoadDyndeps is iterating -- a copy since the fix)
+            imp_ins.append(rnd.choice(allnodes) if rnd.random() < 0.5 else gen_name(rnd, used))
         st.append(Stmt(i, out, imp_outs, imp_ins, rnd.random() < 0.35))
     rnd.shuffle(st)
     return st
@@ -495,6 +495,13 @@ def gen_cases(seed, n):
             cases.append((tag, g, dd, c, None))
     return cases
 
+def fuzz_lines(rnd, n):
+    """n input lines for `impl_run dyndep` (for crash/sanitizer fuzzing by other checks, e.g. C13)"""
+    out = []
+    for tag, g, dd, c, st in gen_cases(rnd.randrange(1 << 30), n)[:n]:
+        out.append('%s %s %s' % (hx(manifest_text(g)), hx(dd), '!' if c is None else hx(c)))
+    return out
+
 def check(seed=1, n=20000):
     cases = gen_cases(seed, n)
     impl, model = impl_binary(), model_binary()
@@ -512,20 +519,13 @@ def check(seed=1, n=20000):
     def mm(what, i, a, b):
         tag, g, dd, c, st = cases[i]
         mismatches.append({'tag': tag, 'what': what, 'impl': a, 'model': b, 'manifest': manifest_text(g), 'dyndep': dd, 'content': c})
-    ubself = set()
     for i, (a, b) in enumerate(zip(io, mo)):
         tag = cases[i][0]
         stats['cases'] += 1
         stats['tag:' + tag.split(':')[0]] += 1
-        if b.endswith(' UBSELF'):
-            # the file names itself as an implicit input: the C++ modifies the vector it iterates
-            # (use-after-free under ASan).  A crash is the known finding; otherwise compare.
-            b = b[:-7]; mo[i] = b; ubself.add(i)
-            stats['ub_self_input'] += 1
-            if a.startswith('CRASH'):
-                stats['ub_self_input_crash:' + a] += 1
-                if 'CRASH' not in samples: samples['CRASH'] = (tag, manifest_text(cases[i][1]), cases[i][3])
-                continue
+        if a.startswith('CRASH'):
+            stats['crash'] += 1
+            mm('CRASH of the implementation', i, a, b); continue
         if a.startswith('MANIFEST_ERR') or ' POST ' not in a:
             mm('generator: manifest rejected', i, a, b); continue
         res = a.split(' POST ', 1)[1]
@@ -561,21 +561,23 @@ def check(seed=1, n=20000):
         model_inl = rm[k][4:]
         if real_inl != model_inl:
             mm('inline: model inline_dyndep vs real parse of the inlined manifest', i, ri[k], rm[k]); continue
-        if io[i].startswith('CRASH'): continue
+        if io[i].startswith('CRASH'): continue   # already reported
         real_post = io[i].split(' POST ', 1)[1]
         bound = [e for e in g.edges if e.dyndep == dd]
         with_stmt = {s.ei: s for s in st}
-        leak = any((not g.edges[s.ei].scoped()) and s.restat for s in st)
+        unscoped_restat = any((not g.edges[s.ei].scoped()) and s.restat for s in st)
+        selfin = any(dd in s.imp_ins for s in st)
         twice = any((e.ins + e.imp + e.oo).count(dd) > 1 for e in bound)
-        if leak: stats['quirk_restat_into_file_scope'] += 1
+        if unscoped_restat: stats['restat_for_edge_without_scope'] += 1   # the fixed restat leak: must correspond
+        if selfin: stats['file_names_itself_as_input'] += 1               # the fixed use-after-free: must correspond
         if twice: stats['quirk_dyndep_listed_twice'] += 1
         if real_post.startswith('OK '):
             same = (real_post[3:] == real_inl)
             if same: stats['load_equals_inlined'] += 1
             else:
                 stats['load_differs_from_inlined'] += 1
-                if not (leak or twice):
-                    mm('metamorphic: real load differs from real inlined manifest outside the known quirks', i, real_post, real_inl)
+                if not twice:
+                    mm('metamorphic: real load differs from real inlined manifest outside the known quirk', i, real_post, real_inl)
         else:
             stats['valid_file_rejected:' + real_post] += 1
             if not twice:
